@@ -15,6 +15,11 @@ package gorums
 
 // ---------------------------------------------------------------- node.go (sorters)
 
+// validMsg(m): m.ProtoReflect().IsValid() - a per-node function yields "no message" for a node by
+// returning an invalid message (in generated code: a typed nil pointer inside a non-nil interface).
+//@ specfun reflOf(Iface) Iface
+//@ specfun reflValid(Iface) Bool
+//@ define validMsg(m Iface) Bool = reflValid(reflOf(m))
 //@ specfun apply_lessFunc(Int, Int, Int) Bool
 //@ funtype lessFunc pure apply_lessFunc
 
@@ -148,7 +153,9 @@ package gorums
 //@   ghost sawDone Bool = false
 //@   ghost ntarget Int = 0
 //@   ghost pnMsg Iface = nilI()
+//@   ghost pnPend Bool = false
 //@   loop "for _, n := range c"
+//@     invariant[C06.d] pnPend ==> !validMsg(pnMsg)
 //@     invariant[C02.b] expectedReplies - (len(c) - idx) == ntarget && 0 <= ntarget && ntarget <= idx
 //@     invariant cap(replyChan) == len(c) && replyChan != nil && !closed(replyChan)
 //@     invariant[C09.a] ChCredit[replyChan] == len(c) - ntarget
@@ -157,9 +164,12 @@ package gorums
 //@     assert[C06.b] arg0 == old(d.Message) && arg1 == c[idx-1].id
 //@     after assume res0 != nil
 //@     after set pnMsg = res0
+//@     after set pnPend = true
 //@   on call "n.channel.enqueue"
 //@     assert[C06.a] old(d.PerNodeArgFn) == nil ==> arg0.msg.Message == old(d.Message)
 //@     assert[C06.b] old(d.PerNodeArgFn) != nil ==> arg0.msg.Message == pnMsg
+//@     assert[C06.d] old(d.PerNodeArgFn) != nil ==> validMsg(pnMsg)
+//@     set pnPend = false
 //@     assert[C06.a] recv == c[idx-1].channel && arg0.ctx == old(ctx) && arg0.msg.Metadata == md && md.Method == old(d.Method)
 //@     assert[C05.a] arg1 == replyChan && arg2 == false && !arg0.opts.noSendWaiting && arg0.opts.callType == nil
 //@     after set ntarget = ntarget + 1
@@ -217,8 +227,10 @@ package gorums
 //@   requires Incomplete != nil
 //@   ghost ntarget Int = 0
 //@   ghost pnMsg Iface = nilI()
+//@   ghost pnPend Bool = false
 //@   ghost spawned Int = 0
 //@   loop "for _, n := range c"
+//@     invariant[C06.d] pnPend ==> !validMsg(pnMsg)
 //@     invariant[C02.b] expectedReplies - (len(c) - idx) == ntarget && 0 <= ntarget && ntarget <= idx
 //@     invariant cap(replyChan) == len(c) && replyChan != nil && !closed(replyChan)
 //@     invariant[C09.a] ChCredit[replyChan] == len(c) - ntarget
@@ -227,9 +239,12 @@ package gorums
 //@     assert[C06.b] arg0 == old(d.Message) && arg1 == c[idx-1].id
 //@     after assume res0 != nil
 //@     after set pnMsg = res0
+//@     after set pnPend = true
 //@   on call "n.channel.enqueue"
 //@     assert[C06.a] old(d.PerNodeArgFn) == nil ==> arg0.msg.Message == old(d.Message)
 //@     assert[C06.b] old(d.PerNodeArgFn) != nil ==> arg0.msg.Message == pnMsg
+//@     assert[C06.d] old(d.PerNodeArgFn) != nil ==> validMsg(pnMsg)
+//@     set pnPend = false
 //@     assert[C06.a] recv == c[idx-1].channel && arg0.ctx == old(ctx) && arg0.msg.Metadata == md && md.Method == old(d.Method)
 //@     assert[C05.a] arg1 == replyChan && arg2 == false && !arg0.opts.noSendWaiting && arg0.opts.callType == nil
 //@     assert[C03.a] spawned == 0
@@ -423,8 +438,10 @@ package gorums
 //@   requires Incomplete != nil
 //@   ghost ntarget Int = 0
 //@   ghost pnMsg Iface = nilI()
+//@   ghost pnPend Bool = false
 //@   ghost spawned Int = 0
 //@   loop "for _, n := range c"
+//@     invariant[C06.d] pnPend ==> !validMsg(pnMsg)
 //@     invariant expectedReplies - (len(c) - idx) == ntarget && 0 <= ntarget && ntarget <= idx
 //@     invariant cap(replyChan) == len(c) && replyChan != nil && !closed(replyChan)
 //@     invariant[C09.a] ChCredit[replyChan] == len(c) - ntarget
@@ -433,9 +450,12 @@ package gorums
 //@     assert[C06.b] arg0 == old(d.Message) && arg1 == c[idx-1].id
 //@     after assume res0 != nil
 //@     after set pnMsg = res0
+//@     after set pnPend = true
 //@   on call "n.channel.enqueue"
 //@     assert[C06.a] old(d.PerNodeArgFn) == nil ==> arg0.msg.Message == old(d.Message)
 //@     assert[C06.b] old(d.PerNodeArgFn) != nil ==> arg0.msg.Message == pnMsg
+//@     assert[C06.d] old(d.PerNodeArgFn) != nil ==> validMsg(pnMsg)
+//@     set pnPend = false
 //@     assert[C06.a] recv == c[idx-1].channel && arg0.ctx == old(ctx) && arg0.msg.Metadata == md && md.Method == old(d.Method)
 //@     assert[C05.a] arg1 == replyChan && arg2 == old(d.ServerStream) && !arg0.opts.noSendWaiting && arg0.opts.callType == nil
 //@     after set ntarget = ntarget + 1
@@ -448,6 +468,8 @@ package gorums
 //@     after set spawned = spawned + 1
 //@   ensures[C11.e] result != nil && spawned == 1
 
+// C09.e / C18.a: a streaming call keeps its routers after a reply; when it ends, the router of EVERY
+// node of the configuration is removed (replied or not), or a late update wedges that node's receiver.
 //@ func (RawConfiguration).handleCorrectableCall
 //@   props C11 C07 C08 C09 C18
 //@   blocks until ctx
@@ -469,7 +491,16 @@ package gorums
 //@   ghost pendV Iface = nilI()
 //@   ghost pendL Int = 0
 //@   ghost hi Int = LevelNotSet
+//@   ghost ndel Int = 0
+//@   loop "for _, n := range c"
+//@     invariant[C09.e,C18.a] ndel == idx && state.data.ServerStream
+//@   on defer "n.channel.deleteRouter"
+//@     assert[C09.e,C18.a] recv == c[idx-1].channel && arg0 == state.md.MessageID
+//@     set ndel = ndel + 1
+//@   on return
+//@     assert[C09.e,C18.a] state.data.ServerStream ==> ndel == len(c)
 //@   loop "for {"
+//@     invariant[C09.e,C18.a] state.data.ServerStream ==> ndel == len(c)
 //@     invariant[C11.e] !state.data.ServerStream ==> nH <= state.expectedReplies
 //@     invariant[C11.e] state.data.ServerStream ==> nErr <= state.expectedReplies
 //@     invariant len(errs) == nErr && nH == nErr + nOK && 0 <= nOK && 0 <= nErr
@@ -588,6 +619,10 @@ package gorums
 //@ field channel.node immutable props C15
 //@ field channel.parentCtx immutable props C15
 //@ field channel.backoffCfg immutable props C15
+// *rand.Rand is not safe for concurrent use and reconnect runs in both the sender and the receiver
+// goroutine: the per-channel source is confined to the constructor (the code draws jitter from the
+// locked global source).
+//@ field channel.rand users newChannel props C15
 //@ field atomicFlag.flag atomic props C15
 
 //@ func (*channel).enqueue
@@ -724,9 +759,11 @@ package gorums
 //@       c[m].channel.node != nil && c[m].channel.parentCtx != nil)
 //@   requires ctx != nil && forall(m, 0, len(opts), opts[m] != nil)
 //@   ghost pnMsg Iface = nilI()
+//@   ghost pnPend Bool = false
 //@   ghost nwait Int = 0
 //@   ghost sent0 Int = 0
 //@   loop "for _, n := range c"
+//@     invariant[C06.d] pnPend ==> !validMsg(pnMsg)
 //@     invariant[C06.c] 0 <= sentMsgs && sentMsgs <= idx && md != nil && ctx == old(ctx) && nwait == 0
 //@     invariant !o.noSendWaiting ==> replyChan != nil && !closed(replyChan) && cap(replyChan) == len(c) && ChCredit[replyChan] == len(c) - sentMsgs
 //@     invariant o.noSendWaiting ==> replyChan == nil
@@ -734,9 +771,12 @@ package gorums
 //@     assert[C06.b] arg0 == old(d.Message) && arg1 == c[idx-1].id
 //@     after assume res0 != nil
 //@     after set pnMsg = res0
+//@     after set pnPend = true
 //@   on call "n.channel.enqueue"
 //@     assert[C06.a] old(d.PerNodeArgFn) == nil ==> arg0.msg.Message == old(d.Message)
 //@     assert[C06.b] old(d.PerNodeArgFn) != nil ==> arg0.msg.Message == pnMsg
+//@     assert[C06.d] old(d.PerNodeArgFn) != nil ==> validMsg(pnMsg)
+//@     set pnPend = false
 //@     assert[C06.a] recv == c[idx-1].channel && arg0.ctx == old(ctx) && arg0.msg.Metadata == md && md.Method == old(d.Method)
 //@     assert[C06.e] arg0.opts == o && arg1 == replyChan && arg2 == false
 //@   loop "for ; sentMsgs > 0; sentMsgs--"
@@ -839,12 +879,15 @@ package gorums
 //@   blocks until req.ctx
 //@   opt effect-tags=C18.b
 
+// C06.f / C10.b: no request is given up (answered with an error without a send attempt) or sent
+// unless, for this very request, the sender either saw the node connected or tried to (re)connect.
 //@ func (*channel).sender
-//@   props C03 C05 C07 C10 C12 C18
+//@   props C03 C05 C06 C07 C10 C12 C18
 //@   mode concurrent
 //@   requires c != nil && c.node != nil && c.parentCtx != nil && streamDownErr != nil
 //@   ghost pending Bool = false
 //@   ghost tried Bool = false
+//@   ghost sawUp Bool = false
 //@   ghost cur request = zero("request")
 //@   loop "for {"
 //@     invariant[C07.b] !pending
@@ -852,15 +895,20 @@ package gorums
 //@     assume r.msg != nil && r.msg.Metadata != nil && r.ctx != nil
 //@     set pending = true
 //@     set tried = false
+//@     set sawUp = false
 //@     set cur = r
+//@   on call "c.isConnected"
+//@     after set sawUp = res0
 //@   on call "c.connect"
 //@     assert[C10.a] pending
 //@     after set tried = true
 //@   on call "c.routeResponse"
 //@     assert[C07.b] pending && arg0 == cur.msg.Metadata.MessageID && arg1.nid == c.node.id && arg1.err != nil && arg1.msg == nil
+//@     assert[C06.f,C10.b] tried || sawUp
 //@     set pending = false
 //@   on call "c.sendMsg"
 //@     assert[C03.b] pending && arg0 == cur
+//@     assert[C06.f,C10.b] tried || sawUp
 //@     after set pending = pending && res0 != nil
 //@   blocks until c.parentCtx
 //@   opt effect-tags=C12.a
